@@ -755,6 +755,26 @@ func init() {
 	})
 }
 
+func init() {
+	register(&PropDef{ID: "C10", Rule: "1-2 processes with exec readiness probes whose initial_delay/period/timeout/thresholds are drawn from {-1,0,1,2,3,10,unset}, scripted probe outcome sequences (pass, fail, hang past the time-out, flapping) on the simulated kernel and the fake clock, all restart policies; non-trivial = at least 3 probe runs; distinct = distinct trace hash",
+		Gen: func(seed uint64, idx int, tier string) *Scenario {
+			sc, r := baseScenario("C10", seed)
+			genC10(r, sc)
+			return sc
+		},
+		Check: checkC10,
+		NonTrivial: func(sc *Scenario, res *RunResult, t *Truth) bool {
+			n := 0
+			for _, in := range t.Insts {
+				if in.Kind == "simprobe" {
+					n++
+				}
+			}
+			return n >= 3
+		},
+	})
+}
+
 func sortOut(o []simos.OutChunk) {
 	for i := 1; i < len(o); i++ {
 		for j := i; j > 0 && o[j].AtMs < o[j-1].AtMs; j-- {
